@@ -12,7 +12,7 @@ use rayon::prelude::*;
 use serde_json::json;
 use sha2::Sha512;
 use stateright::{Model, Property};
-use std::sync::atomic::Ordering;
+use std::sync::atomic::{AtomicU64, Ordering};
 
 fn canon_check(got: &Scalar, want: &Zl) -> Result<(), String> {
     if got.to_bytes() != want.to_bytes() {
@@ -283,6 +283,65 @@ pub fn run(ctx: &Ctx) {
         }
     });
     ctx.count("reduce512_inputs_with_nonzero_high_half", wide_nontriv.load(Ordering::Relaxed));
+    // The wide reduction splits its input at the Montgomery radix (2^260 for 52-bit limbs, 2^261 for 29-bit limbs) and
+    // ends in conditional subtractions of l: whether one subtraction suffices is decided on a thin slice where both
+    // parts are near their maxima.  Grid: (radix - 1 - a) + (top - b) * radix for a, b over small values and powers
+    // of two, for both radices.
+    {
+        let offs: Vec<U> = {
+            let mut v: Vec<U> = (0..(if quick { 24u64 } else { 48 })).map(U::from_u64).collect();
+            for k in (5..250).step_by(if quick { 7 } else { 3 }) {
+                v.push(U::pow2(k));
+                v.push(U::pow2(k).sub(&U::ONE));
+            }
+            v
+        };
+        let mut grid: Vec<[u8; 64]> = Vec::new();
+        for rb in [260usize, 261] {
+            let radix_m1 = U::pow2(rb).sub(&U::ONE);
+            let top = U::pow2(512 - rb).sub(&U::ONE);
+            for a in &offs {
+                if a.bits() >= rb {
+                    continue;
+                }
+                for b in &offs {
+                    if b.bits() >= 512 - rb {
+                        continue;
+                    }
+                    let lo = radix_m1.sub(a);
+                    let hi = top.sub(b);
+                    // lo + hi * 2^rb as 64 little-endian bytes (the value needs all 512 bits: assemble by parts)
+                    let mut bytes = [0u8; 64];
+                    let lob = lo.to_le64();
+                    bytes[..33].copy_from_slice(&lob[..33]);
+                    let hib = hi.shl(rb % 8).to_le64();
+                    for (i, x) in hib.iter().enumerate() {
+                        if rb / 8 + i < 64 {
+                            bytes[rb / 8 + i] |= *x;
+                        }
+                    }
+                    grid.push(bytes);
+                }
+            }
+        }
+        ctx.bound("reduce512_boundary_grid", json!(grid.len()));
+        let bad = AtomicU64::new(0);
+        grid.par_iter().for_each(|b| {
+            ctx.eval(1);
+            let want = Zl::from_le(b);
+            match guarded(|| Scalar::from_bytes_mod_order_wide(b)) {
+                Ok(s) => {
+                    if let Err(e) = canon_check(&s, &want) {
+                        if bad.fetch_add(1, Ordering::Relaxed) < 8 {
+                            ctx.violation("sc.from_bytes_mod_order_wide", &e, json!({"kind": "reduce512_boundary", "bytes": hex(b)}));
+                        }
+                    }
+                    ctx.record(&format!("sc.from_bytes_mod_order_wide/{}", hex(b)), &s.to_bytes());
+                }
+                Err(e) => ctx.violation("sc.from_bytes_mod_order_wide", &format!("panic: {}", e), json!({"kind": "reduce512_boundary", "bytes": hex(b)})),
+            }
+        });
+    }
     // SHA-512 hash to scalar
     for n in alpha::msg_lens() {
         ctx.eval(1);
